@@ -160,10 +160,10 @@ def nnf : F → Bool → Option F
   | smt s p, b => some (smt s (if b then !p else p))
   | tt, b => some (if b then ff else tt)
   | ff, b => some (if b then tt else ff)
-  | all q f, b => if b then (nnf f true).map (ex q) else some (all q f)
-  | ex q f, b => if b then (nnf f true).map (all q) else some (ex q f)
-  | allInt v f, b => if b then (nnf f true).map (exInt v) else some (allInt v f)
-  | exInt v f, b => if b then (nnf f true).map (allInt v) else some (exInt v f)
+  | all q f, b => if b then (nnf f true).map (ex q) else (nnf f false).map (all q)
+  | ex q f, b => if b then (nnf f true).map (all q) else (nnf f false).map (ex q)
+  | allInt v f, b => if b then (nnf f true).map (exInt v) else (nnf f false).map (allInt v)
+  | exInt v f, b => if b then (nnf f true).map (allInt v) else (nnf f false).map (exInt v)
 def nnfL : List F → Bool → Option (List F)
   | [], _ => some []
   | f :: fs, b => match nnf f b, nnfL fs b with
